@@ -534,6 +534,25 @@ def register(g):
               f'def omLookup (m : OMap V) (k : String) : Option V :=\n  {out["lookup"]}\n'
               f'def omIter (m : OMap V) : List (String × V) :=\n  {out["iter"]}\nend Rj.Generated\n')
 
+    def behaviour_writes():
+        """every assignment to one of the behaviour fields of the SyncContext in boss_sync.rs: the field and whether the assignment is the body of
+        `if let Some(b) = prompt_result.remembered_behaviour { ctx.<field> = b; }` inside the resolution of that same field"""
+        import re as _re
+        src = strip_comments(read('src/boss_sync.rs'))
+        out = []
+        for m in _re.finditer(r'(\w+(?:\.\w+)*)\.(\w+_behaviour)\s*=(?!=)\s*([^;]*);', src):
+            owner, field, rhs = m.group(1), m.group(2), _re.sub(r'\s+', '', m.group(3))
+            before = _re.sub(r'\s+', '', src[max(0, m.start() - 4000):m.start()])
+            guard = before.endswith('ifletSome(b)=prompt_result.remembered_behaviour{')
+            # the nearest enclosing resolution: `let resolved_behaviour = match ctx.<field> {`
+            res = _re.findall(r'letresolved_behaviour=matchctx\.(\w+)\{', before)
+            kind = 'remembered' if (owner == 'ctx' and rhs == 'b' and guard and res and res[-1] == field) else 'other:' + owner + '=' + rhs[:40]
+            out.append((field, kind))
+        write('BehaviourWrites.lean', 'namespace Rj.Generated\n/-- assignments to behaviour fields in boss_sync.rs: (field, "remembered" | "other:...") in source order -/\n'
+              'def behaviourWrites : List (String × String) := [' + ', '.join(f'({lean_str(a)}, {lean_str(b)})' for a, b in out) + ']\nend Rj.Generated\n')
+        if any(k != 'remembered' for _, k in out) or len(out) != 4:
+            status['behaviour-writes'] = f'assignments to behaviour fields in boss_sync.rs: {out!r}'
+
     def apply_filters_skel():
         """apply_filters of doer.rs: the early return for the root, the default by the first filter's kind, the assignment loop"""
         import re as _re
@@ -587,4 +606,4 @@ def register(g):
               f'def pathDescDriveGuard : String := {lean_str(guard)}\ndef pathDescSplits : Nat := {n_split}\nend Rj.Generated\n')
 
     g_ = g
-    return {'ordered_map': ordered_map, 'process_entries': process_entries, 'path_desc': path_desc, 'apply_filters_skel': apply_filters_skel, 'decisions': decisions, 'run_skel': run_skel, 'link_socket': link_socket, 'session': session, 'defaults': defaults, 'skeletons': skeletons, 'sites': sites, 'shutdown': shutdown, 'panic_sites': panic_sites, 'walker': walker, 'slash_table': slash_table}
+    return {'behaviour_writes': behaviour_writes, 'ordered_map': ordered_map, 'process_entries': process_entries, 'path_desc': path_desc, 'apply_filters_skel': apply_filters_skel, 'decisions': decisions, 'run_skel': run_skel, 'link_socket': link_socket, 'session': session, 'defaults': defaults, 'skeletons': skeletons, 'sites': sites, 'shutdown': shutdown, 'panic_sites': panic_sites, 'walker': walker, 'slash_table': slash_table}
